@@ -184,10 +184,12 @@ Print Assumptions C10_siblings_after_unknown_field.
    anywhere on a selection, and an inline fragment on an undefined type. *)
 Theorem C10_unknown_directive_rejected :
   forall S id alias name args dirs sels n v,
+    n <> DECLARED_DIR ->
     In (mkDir (DOther n) v) dirs -> sel_rejects S (SField id alias name args dirs sels) = true.
 Proof.
-  intros. cbn [sel_rejects]. apply orb_true_iff. left. apply orb_true_iff. right.
-  apply existsb_exists. eexists; split; eauto.
+  intros S id alias name args dirs sels n v Hn Hin. cbn [sel_rejects]. apply orb_true_iff. left. apply orb_true_iff. right.
+  apply existsb_exists. eexists; split; eauto. unfold dir_rejects. cbn [d_name].
+  apply Nat.eqb_neq in Hn. now rewrite Hn.
 Qed.
 Print Assumptions C10_unknown_directive_rejected.
 
